@@ -80,7 +80,7 @@ TypeG(tag) ==
 (* landmark values of an integral type *)
 IntLm(tag) ==
    LET t == TypeG(tag)
-       c == {Z0, Z1, ZN(-1), ZN(2), ZN(-2), ZN(3), ZN(7), ZN(-7), ZN(100), ZN(127), ZN(128), ZN(255), ZN(256), ZN(360), ZN(-360),
+       c == {ZN(4), ZN(10), ZN(65536), P(20), P(30), Z0, Z1, ZN(-1), ZN(2), ZN(-2), ZN(3), ZN(7), ZN(-7), ZN(100), ZN(127), ZN(128), ZN(255), ZN(256), ZN(360), ZN(-360),
              TMin(t), TMin(t) ++ Z1, TMax(t), TMax(t) -- Z1, MaxIntegral, MaxIntegral ++ Z1, MaxIntegral -- Z1,
              ZNeg(MaxIntegral), ZNeg(MaxIntegral) -- Z1, P(15), P(16), P(31), P(32), P(32) -- Z1, P(47), P(62), P(63), P(63) ++ Z1,
              P(63) -- Z1, ZNeg(P(31)), ZNeg(P(47)), P(64) -- Z1, P(64) -- ZN(2)}
